@@ -290,6 +290,14 @@ def handle (st : DState) (req : Json) : DState × Json :=
     match st.world with
     | none => (st, Json.mkObj [("bad", "boot first")])
     | some w => (st, answerQuery w.c ((req.getObjVal? "msg").toOption.getD .null))
+  | "legacy_batches" =>
+    -- the stored batches as an older contract version wrote them: without the request counter
+    -- (`unstake_requests_count` absent = `None`); the orchestrator rewrites the real store the same way
+    match st.world with
+    | none => (st, Json.mkObj [("bad", "boot first")])
+    | some w =>
+      let c' := { w.c with batches := w.c.batches.map fun kv => (kv.1, { kv.2 with reqCount := none }) }
+      ({ st with world := some { w with c := c' } }, Json.mkObj [("ok", .null)])
   | "probe" =>
     -- a probe never changes the world: run the handler on the current store, then hand `reply` an
     -- arbitrary result (undecodable data, no data, an error, any sequence) for the first tracked
